@@ -11,7 +11,7 @@ from .monitor import _us, demand_of
 GREEDY = ("EDF", "FIFO", "LSF")
 PLANNERS = ("ILP", "TetriSchedGurobi", "TetriSchedCPLEX")
 ENV_LIMIT_MARKERS = ("Model too large for size-limited license", "size-limited", "CPLEX Error  1016",
-                     "Promotional version", "problem size limits")
+                     "Promotional version", "problem size limits", "harness solver wall-clock limit")
 
 
 class Inconclusive(Exception):
